@@ -63,6 +63,9 @@ func (c01) Assumptions() []string {
 func (c01) Gen(rng *rand.Rand, tier string, i int) *sim.Scenario {
 	o := &wireOpts{variants: AllVariants, bigTTL: 0.04, catalogue: true, silentProb: 0.35, dupProb: 0.1, adversarial: 4, destForms: true,
 		captureOut: 0.3, wrapBases: true, noDest: 0.2, natInRelaxed: true}
+	if tier == "thorough" {
+		o.adversarial, o.bigTTL = 6, 0.1
+	}
 	wr := genWireRun(rng, o, 0, "c0")
 	sc := scenarioFor("C01", rng, []*wireRun{wr})
 	sc.Knobs.CaptureOutgoing = chance(rng, o.captureOut)
@@ -165,6 +168,9 @@ func (c02) Assumptions() []string {
 func (c02) Gen(rng *rand.Rand, tier string, i int) *sim.Scenario {
 	o := &wireOpts{variants: AllVariants, bigTTL: 0.04, catalogue: true, silentProb: 0.2, dupProb: 0.15, lossProb: 0.08, lateProb: 0.05,
 		wellTimed: true, overtake: true, noDest: 0.15, natInRelaxed: true, wrapBases: true}
+	if tier == "thorough" {
+		o.bigTTL = 0.12
+	}
 	wr := genWireRun(rng, o, 0, "c0")
 	if wr.v.Entry == "tcp" {
 		// no late replies for the serial engine
@@ -394,6 +400,10 @@ func (c04) Assumptions() []string {
 }
 
 func (c04) Gen(rng *rand.Rand, tier string, i int) *sim.Scenario {
+	if i%6 == 5 {
+		// whole requests: the end-to-end RTT must come from a destination-marked hop
+		return genRequestScenario("C04", rng, requestOpts{queriesMin: 1, queriesMax: 2, e2eMax: 3, silentProb: 0.3})
+	}
 	o := &wireOpts{variants: AllVariants, bigTTL: 0.03, catalogue: true, silentProb: 0.3, dupProb: 0.1, adversarial: 1, destForms: true, noDest: 0.2, wrapBases: true}
 	wr := genWireRun(rng, o, 0, "c0")
 	sc := scenarioFor("C04", rng, []*wireRun{wr})
@@ -404,7 +414,12 @@ func (c04) Gen(rng *rand.Rand, tier string, i int) *sim.Scenario {
 func (c04) Check(out *sim.Outcome, ri *RunInfo) []Violation {
 	vs := crashViolations(out)
 	ri.Shape = shapeOf(out.Sc)
-	for _, v := range views(out) {
+	vws := views(out)
+	for _, ev := range e2eRTTViolations(out, vws, ri) {
+		ev.Rule = "C04.e2e-not-from-destination"
+		vs = append(vs, ev)
+	}
+	for _, v := range vws {
 		for _, p := range out.W.Pkts {
 			if len(p.Ep) > v.Ep.Idx && p.Ep[v.Ep.Idx].Read && p.Origin.Flow == v.Ep.Actor {
 				ip, err := codec.DecodeIP(p.Bytes, true)
@@ -778,6 +793,9 @@ func (c09) Assumptions() []string {
 
 func (c09) Gen(rng *rand.Rand, tier string, i int) *sim.Scenario {
 	o := &wireOpts{variants: AllVariants, bigTTL: 0.02, catalogue: true, silentProb: 0.25, garbage: 3, noDest: 0.2, wellTimed: true}
+	if tier == "thorough" {
+		o.garbage, o.bigTTL = 5, 0.05
+	}
 	wr := genWireRun(rng, o, 0, "c0")
 	if wr.v.Entry == "tcp" {
 		for hi := range wr.flow.Hops {
